@@ -136,3 +136,7 @@ def run(ctx):
     # the name is stored with the shared string helper: header = 2 * UTF-16 units, body = those units (same instance as C16/string)
     from rules import c16
     c16.rule_string(ctx, R="C15/name-string")
+    # an unreadable name is recorded as a soft error carrying the io::Error; that record is serialised at the end of the dump, and a
+    # panic there loses every other thread's entry too (same rule instance as C11/serialisers-total)
+    from rules import c11
+    c11.rule_serialisers_total(ctx, R="C15/name-failure-serialisable")
